@@ -368,10 +368,16 @@ impl Optimizer {
                                 output_schema,
                             }
                         } else if refs_right && !refs_left {
-                            // Predicate only references right side - push down to right
-                            // Need to adjust column indices
-                            let adjusted_predicate =
-                                Self::adjust_predicate_columns(&predicate, -(left_cols as i32));
+                            // Predicate only references right side - push down to right.
+                            // The join output omits the right key columns, so a column at
+                            // position `c` of the output is *not* column `c - left_cols` of the
+                            // right input: re-insert the excluded key positions (same mapping
+                            // as `remap_projection_for_join_flatmap`).
+                            let adjusted_predicate = Self::remap_predicate_columns_to_right_input(
+                                &predicate,
+                                left_cols,
+                                &right_keys,
+                            );
                             IRNode::Join {
                                 left,
                                 right: Box::new(IRNode::Filter {
@@ -521,9 +527,36 @@ impl Optimizer {
         }
     }
 
+    /// Translate the column indices of a predicate over a join's output (all left columns,
+    /// then the right columns that are not join keys) into indices of the right input.
+    fn remap_predicate_columns_to_right_input(
+        predicate: &Predicate,
+        left_width: usize,
+        right_keys: &[usize],
+    ) -> Predicate {
+        let mut sorted_keys = right_keys.to_vec();
+        sorted_keys.sort_unstable();
+        Self::map_predicate_columns(predicate, &|col: usize| -> usize {
+            let mut actual_right_idx = col - left_width;
+            for &key_idx in &sorted_keys {
+                if key_idx <= actual_right_idx {
+                    actual_right_idx += 1;
+                }
+            }
+            actual_right_idx
+        })
+    }
+
     /// Adjust column indices in a predicate by an offset
+    #[allow(dead_code)]
     fn adjust_predicate_columns(predicate: &Predicate, offset: i32) -> Predicate {
-        let adjust = |col: usize| -> usize { ((col as i32) + offset) as usize };
+        Self::map_predicate_columns(predicate, &|col: usize| -> usize {
+            ((col as i32) + offset) as usize
+        })
+    }
+
+    /// Rewrite every column index of a predicate through `adjust`
+    fn map_predicate_columns(predicate: &Predicate, adjust: &dyn Fn(usize) -> usize) -> Predicate {
 
         match predicate {
             Predicate::ColumnEqConst(col, val) => Predicate::ColumnEqConst(adjust(*col), *val),
@@ -570,12 +603,12 @@ impl Optimizer {
                 Predicate::ArithCompareConst(expr.clone(), op.clone(), *val, new_var_map)
             }
             Predicate::And(left, right) => Predicate::And(
-                Box::new(Self::adjust_predicate_columns(left, offset)),
-                Box::new(Self::adjust_predicate_columns(right, offset)),
+                Box::new(Self::map_predicate_columns(left, adjust)),
+                Box::new(Self::map_predicate_columns(right, adjust)),
             ),
             Predicate::Or(left, right) => Predicate::Or(
-                Box::new(Self::adjust_predicate_columns(left, offset)),
-                Box::new(Self::adjust_predicate_columns(right, offset)),
+                Box::new(Self::map_predicate_columns(left, adjust)),
+                Box::new(Self::map_predicate_columns(right, adjust)),
             ),
             Predicate::True => Predicate::True,
             Predicate::False => Predicate::False,
